@@ -306,6 +306,17 @@ func New(cfg Config, ch Chooser) *Sim {
 	return s
 }
 
+// SetMaxSteps raises (or lowers) the step budget of the running simulation: a
+// workload that knows its own size sets a budget in proportion to it, so that
+// the budget means "far more steps than this workload can need".
+//
+//go:norace
+func SetMaxSteps(n int64) {
+	if s := cur.Load(); s != nil && n > 0 {
+		s.cfg.MaxSteps = n
+	}
+}
+
 // Seq returns the next global event sequence number.
 //
 //go:norace
